@@ -4,6 +4,7 @@ import (
 	"fmt"
 	"strings"
 	"sync"
+	"syscall"
 	"testing"
 	"verif/harness/cold"
 
@@ -85,17 +86,25 @@ func TestColdChild(t *testing.T) {
 		f /= n
 		order[i], order[j] = order[j], order[i]
 	}
+	// every third child is a process of an ordinary user (the harness runs as root; the child gives its privileges up before it
+	// parses anything): what a parser accepts is a matter of the text and the role, not of who runs the process
+	who := "root or whoever runs the checks"
+	if k%3 == 1 && syscall.Geteuid() == 0 {
+		if err := syscall.Setreuid(65534, 65534); err == nil {
+			who = fmt.Sprintf("an ordinary user (uid %d)", syscall.Geteuid())
+		}
+	}
 	n := 0
 	judge := func(role, s string) {
 		n++
 		if f, _ := decide(aCase{role, s}); f != nil {
-			cold.Report(f.Fingerprint+"/first-roles-parsed-in-the-process: "+strings.Join(order, ","), f.Msg+fmt.Sprintf(" (the first parses of this process were made in the role order %v)", order), aCase{role, s})
+			cold.Report(f.Fingerprint+"/first-roles-parsed-in-the-process: "+strings.Join(order, ","), f.Msg+fmt.Sprintf(" (the first parses of this process were made in the role order %v; the process runs as %s)", order, who), aCase{role, s})
 		}
 	}
 	for _, role := range order {
 		judge(role, []string{"192.168.1.100:60001", "192.168.1.100"}[k/24%2])
 	}
-	for _, s := range []string{"192.168.1.100", "192.168.1.100:60001", "0.0.0.0", "0.0.0.0:0", "255.255.255.255", "255.255.255.255:60000", "10.0.0.1:0", "10.0.0.1:60000", "1.2.3.4:1", "::1", "1.2.3", ""} {
+	for _, s := range []string{"192.168.1.100", "192.168.1.100:60001", "0.0.0.0", "0.0.0.0:0", "255.255.255.255", "255.255.255.255:60000", "10.0.0.1:0", "10.0.0.1:60000", "1.2.3.4:1", "1.2.3.4:80", "1.2.3.4:443", "1.2.3.4:1023", "1.2.3.4:1024", "::1", "1.2.3", ""} {
 		for _, role := range roles {
 			judge(role, s)
 		}
